@@ -13,8 +13,11 @@
 // forkcase.hpp as ABORT:.. / EXC:..
 #include <forkcase.hpp>
 #include <exact_q.hpp>
-// Math::isnan is only declared generically (UnitFilterBlocked asks for it); a rational is never NaN
+// Math::isnan is only declared generically (UnitFilterBlocked asks for it); a rational is never NaN.
+// exact_q.hpp defines VERIF_Q_HAS_ISNAN once it provides the specialisation itself.
+#ifndef VERIF_Q_HAS_ISNAN
 namespace FEAT { namespace Math { template<> inline bool isnan<Q>(Q) { return false; } } }
+#endif
 #include <kernel/lafem/dense_vector.hpp>
 #include <kernel/lafem/dense_vector_blocked.hpp>
 #include <kernel/lafem/sparse_matrix_csr.hpp>
